@@ -295,17 +295,19 @@ section
 variable {m n : Nat} [NeZero m] [NeZero n]
 
 /-- NumPy `intersect_w_surface` / `reflect` / `intersect_w_circle` and torch `reflect` / `intersect_w_circle` with a batch: element
-    `i` is the single-ray result for ray `i` (and normal `i`) -/
+    `i` is the single-ray result for ray `i` (and normal `i`; also n rays at one normal and one ray at n normals) -/
 theorem C10_gen_batch_numpy {α : Type} [Num α] (ray : Fin m → Ray α) (t : Tri α) (centre : Vec3 α) (radius : α) (i : Fin m)
     (r nrm : Fin n → Ray α) (q : Fin n) :
     intersectSurfaceRaysN ray t i = intersectSurfaceN (ray i) t.p0 t.p1 t.p2 ∧
     reflectBatchN r nrm q = reflectN (r q) (nrm q) ∧ reflectBatchT r nrm q = reflectT (r q) (nrm q) ∧
+    reflectRaysN r (nrm q) q = reflectN (r q) (nrm q) ∧ reflectRaysT r (nrm q) q = reflectT (r q) (nrm q) ∧
+    reflectNormalsN (r q) nrm q = reflectN (r q) (nrm q) ∧ reflectNormalsT (r q) nrm q = reflectT (r q) (nrm q) ∧
     intersectCircleRaysT ray t centre radius i = intersectCircleT (ray i) t.p0 t.p1 t.p2 centre radius ∧
     (intersectCircleRaysN ray t centre radius i).point = (intersectSurfaceN (ray i) t.p0 t.p1 t.p2).point ∧
     (intersectCircleRaysN ray t centre radius i).distance =
       (if decide (radius < Vec3.norm ((intersectSurfaceN (ray i) t.p0 t.p1 t.p2).point - centre)) = true then Num.ofNat 0
        else (intersectSurfaceN (ray i) t.p0 t.p1 t.p2).distance) :=
-  ⟨rfl, rfl, rfl, rfl, rfl, rfl⟩
+  ⟨rfl, rfl, rfl, rfl, rfl, rfl, rfl, rfl, rfl, rfl⟩
 
 /-- NumPy `intersect_w_circle` with a batch, over ℝ: inside the circle ray `i` keeps ITS distance, outside it gets zero -/
 theorem C10_gen_batch_circle_n (ray : Fin m → Ray ℝ) (t : Tri ℝ) (centre : Vec3 ℝ) (radius : ℝ) (i : Fin m) :
@@ -313,7 +315,7 @@ theorem C10_gen_batch_circle_n (ray : Fin m → Ray ℝ) (t : Tri ℝ) (centre :
       (intersectCircleRaysN ray t centre radius i).distance = (intersectSurfaceN (ray i) t.p0 t.p1 t.p2).distance) ∧
     (radius < Vec3.norm ((intersectSurfaceN (ray i) t.p0 t.p1 t.p2).point - centre) →
       (intersectCircleRaysN ray t centre radius i).distance = 0) := by
-  rw [(C10_gen_batch_numpy ray t centre radius i (fun _ : Fin 1 => ray i) (fun _ => ray i) 0).2.2.2.2.2]
+  rw [(C10_gen_batch_numpy ray t centre radius i (fun _ : Fin 1 => ray i) (fun _ => ray i) 0).2.2.2.2.2.2.2.2.2]
   refine ⟨fun h => ?_, fun h => ?_⟩
   · simp only [decide_eq_true_eq, if_neg (not_lt.mpr h)]
   · simp only [decide_eq_true_eq, if_pos h, num_ofNat, Nat.cast_zero]
